@@ -15,6 +15,18 @@ R4 total = sum of entries: total_energy accumulates exactly the four values
    stored under "energy"; extract_energy_sum / extract_energy_profile sum
    exactly energy[key] for the keys of the class entry or "default".
 R5 every OP[...] cost is clamped with max(., 0).
+R7 per-layer entries: energy_estimate and parameter_read_energy are
+   interpreted on a synthetic data-type map with one layer per class arm
+   (operand types, counts, gate factors symbolic; the memory functions - R6 -
+   and the OP cost functions uninterpreted).  Each entry must be the
+   documented function: inputs = sum of reads of every input tensor with its
+   own quantizer's bits and the layer's input flag, outputs = one write of
+   the output shape with the output quantizer's bits and the output flag,
+   parameters = reads of weight (and bias, when present) with their own
+   quantizers' bits from weights_on_memory, op_cost = count x (gate_factor x
+   OP[type][mode](gate_bits) + add cost of the accumulator) for MAC layers,
+   (n_inputs - 1) x count x ... for merges, count x add cost for pooling,
+   0 for activations; total_cost = int(sum of all entries).
 R6 memory placement: memory_read_energy / memory_write_energy are partially
    evaluated for every (model-io flag, mode in dram/sram/fixed, rd_wr_on_io)
    with symbolic tensor sizes and opaque cost functions.  Documented rule
@@ -479,7 +491,13 @@ def rule_totals(rep, repo):
   # fall through to "default")
   setting = {"QDense": ["inputs", "op_cost"], "QBatchNormalization": [],
              "default": ["outputs"]}
-  for mname, want in (("extract_energy_sum", N("a1") + N("d1") + N("b2")),):
+  # without a "default" rule unlisted classes contribute nothing
+  setting_nd = {"QDense": ["inputs", "op_cost"]}
+  for mname, want, st in (
+      ("extract_energy_sum", N("a1") + N("d1") + N("b2"), setting),
+      ("extract_energy_sum", N("a1") + N("d1"), setting_nd),
+      ("extract_energy_sum", NF.const(0), {})):
+    setting_used = st
     m = qt.methods.get(mname)
     munit = "%s::QTools.%s" % (rq.relpath, mname)
     rep.unit(munit)
@@ -490,7 +508,7 @@ def rule_totals(rep, repo):
     obj = Obj(qt)
     try:
       r = pe.call_func(Func(m, rq, [], mname, obj, qt),
-                       [setting, energy_dict], {})
+                       [setting_used, energy_dict], {})
       got = fw(r.term) if isinstance(r, Tensor) else NF.const(F(r))
     except PyRaise as e:
       got = None
@@ -498,8 +516,8 @@ def rule_totals(rep, repo):
                loc=rq.loc(m))
       continue
     rep.check(got == want, "R4", munit, "sum!=selected-entries",
-              "%s returns %s for a setting selecting %s" %
-              (mname, show(got), show(want)), loc=rq.loc(m))
+              "%s returns %s for the setting %s, which selects %s" %
+              (mname, show(got), setting_used, show(want)), loc=rq.loc(m))
   m = qt.methods.get("extract_energy_profile")
   munit = "%s::QTools.extract_energy_profile" % rq.relpath
   rep.unit(munit)
@@ -626,6 +644,172 @@ def rule_placement(rep, repo):
                   loc=qe.loc(fn), instance=cfg)
 
 
+def rule_entries(rep, repo):
+  from .. import typearith as ta
+  qe = repo.module(QE)
+  efn = qe.functions["energy_estimate"]
+  unit = "%s::energy_estimate" % qe.relpath
+  loc = qe.loc(efn)
+  fw = Fwd()
+
+  def op(name):
+    return lambda pe, a, k: Tensor(("app", name, (), (pe.as_term(a[0]),)),
+                                   ())
+  optable = {k: {m: op("%s_%s" % (k, m))
+                 for m in ("add", "mul", "mux", "xor", "and", "or",
+                           "shifter")} for k in ("fpm", "fp32", "fp16")}
+
+  def rd(pe, a, k):
+    is_tensor = k.get("is_tensor", a[6] if len(a) > 6 else True)
+    return Tensor(("app", "RD", (("flag", bool(a[0])), ("shape", str(a[1])),
+                                 ("mem", a[2]), ("tensor", bool(is_tensor)),
+                                 ("rdwr", a[4])),
+                   (pe.as_term(a[5]), pe.as_term(a[3]))), ())
+
+  def wr(pe, a, k):
+    return Tensor(("app", "WR", (("flag", bool(a[0])), ("shape", str(a[1])),
+                                 ("mem", a[2]), ("rdwr", a[4])),
+                   (pe.as_term(a[5]), pe.as_term(a[3]))), ())
+  pe = PE(repo, module_overrides={QE: {
+      "OP": optable, "memory_read_energy": rd, "memory_write_energy": wr}})
+  pe.opaque_ext = True
+
+  def q(tag):
+    return ta.make_operand(pe, repo, "fixed_s", tag)
+
+  def L(cls, name, ishape):
+    return Mock(name, {"name": name, "input_shape": ishape,
+                       "__class__": Mock("class", {"__name__": cls}),
+                       "get_weights": lambda pe, a, k: [
+                           Mock("w", {"shape": (4,)}) for _ in range(4)]})
+
+  def impl(tag, mode):
+    return Mock(tag, {"gate_factor": S("gf_" + tag), "gate_bits":
+                      S("gb_" + tag), "output": q("o_" + tag),
+                      "implemented_as": lambda pe, a, k, mode=mode: mode})
+  layers, lm = [], {}
+
+  def add(cls, name, ishape, n_in=1, **item):
+    lyr = L(cls, name, ishape)
+    ent = {"input_quantizer_list": [q("in%d_%s" % (i, name))
+                                    for i in range(n_in)],
+           "operation_count": S("cnt_" + name),
+           "output_shapes": (None, 7, name),
+           "output_quantizer": q("out_" + name)}
+    ent.update(item)
+    layers.append(lyr)
+    lm[lyr] = ent
+    return lyr
+  d = add("QDense", "dense", (None, 16), multiplier=impl("m_dense", "mul"),
+          accumulator=Mock("acc", {"output": q("acc_dense")}),
+          weight_quantizer=q("w_dense"), w_shapes=(16, 8),
+          bias_quantizer=q("b_dense"), b_shapes=(8,))
+  c = add("QConv2D", "conv", (None, 8, 8, 4),
+          multiplier=impl("m_conv", "shifter"),
+          accumulator=Mock("acc", {"output": q("acc_conv")}),
+          weight_quantizer=q("w_conv"), w_shapes=(3, 3, 4, 8),
+          bias_quantizer=None, b_shapes=None)
+  a_ = add("QActivation", "act", (None, 8))
+  m_ = add("Add", "merge", [(None, 8), (None, 8), (None, 8)], n_in=3,
+           multiplier=impl("m_merge", "add"))
+  p_ = add("AveragePooling2D", "pool", (None, 8, 8, 4),
+           pool_sum_accumulator=Mock("pacc", {"output": q("acc_pool")}))
+  layer_map = {"output_layers": [p_], "input_layers": [d],
+               "layer_data_type_map": lm}
+  model = Mock("model", {"layers": layers + [L("Flatten", "not_in_map",
+                                               (None, 8))]})
+  try:
+    r = pe.call(pe.lookup_global("energy_estimate", qe),
+                [model, layer_map, "sram", "dram", S("minsram"), True], {})
+  except PyRaise as e:
+    rep.fail("R7", unit, "energy_estimate-raises",
+             "raises %s on the synthetic data-type map" % e, loc=loc)
+    return
+  N = NF.sym
+
+  def g(v):
+    return fw(v.term) if isinstance(v, Tensor) else NF.const(F(v))
+
+  def RD(flag, shape, mem, bits, tensor=True):
+    return mk("RD", (("flag", flag), ("shape", str(shape)), ("mem", mem),
+                     ("tensor", tensor), ("rdwr", True)),
+              [N(bits), N("minsram")])
+
+  def WR(flag, shape, mem, bits):
+    return mk("WR", (("flag", flag), ("shape", str(shape)), ("mem", mem),
+                     ("rdwr", True)), [N(bits), N("minsram")])
+
+  def mk(name, attrs, args):
+    from ..qir import mk_app
+    return mk_app(name, args, attrs)
+
+  def OPc(name, arg):
+    return mk(name, (), [N(arg)])
+  want = {
+      "dense": {
+          "inputs": RD(True, (None, 16), "dram", "bin0_dense"),
+          "outputs": WR(False, (None, 7, "dense"), "dram", "bout_dense"),
+          "parameters": RD(False, (16, 8), "sram", "bw_dense", False) +
+                        RD(False, (8,), "sram", "bb_dense", False),
+          "op_cost": N("cnt_dense") * (N("gf_m_dense") * OPc(
+              "fpm_mul", "gb_m_dense") + OPc("fpm_add", "bacc_dense"))},
+      "conv": {
+          "inputs": RD(False, (None, 8, 8, 4), "dram", "bin0_conv"),
+          "outputs": WR(False, (None, 7, "conv"), "dram", "bout_conv"),
+          "parameters": RD(False, (3, 3, 4, 8), "sram", "bw_conv", False),
+          "op_cost": N("cnt_conv") * (N("gf_m_conv") * OPc(
+              "fpm_shifter", "gb_m_conv") + OPc("fpm_add", "bacc_conv"))},
+      "act": {
+          "inputs": RD(False, (None, 8), "dram", "bin0_act"),
+          "outputs": WR(False, (None, 7, "act"), "dram", "bout_act"),
+          "parameters": None, "op_cost": NF.const(0)},
+      "merge": {
+          "inputs": RD(False, (None, 8), "dram", "bin0_merge") +
+                    RD(False, (None, 8), "dram", "bin1_merge") +
+                    RD(False, (None, 8), "dram", "bin2_merge"),
+          "outputs": WR(False, (None, 7, "merge"), "dram", "bout_merge"),
+          "parameters": None,
+          "op_cost": 2 * N("cnt_merge") * N("gf_m_merge") * OPc(
+              "fpm_add", "gb_m_merge")},
+      "pool": {
+          "inputs": RD(False, (None, 8, 8, 4), "dram", "bin0_pool"),
+          "outputs": WR(True, (None, 7, "pool"), "dram", "bout_pool"),
+          "parameters": None,
+          "op_cost": N("cnt_pool") * OPc("fpm_add", "bacc_pool")},
+  }
+  rep.check("not_in_map" not in r, "R7", unit, "layer-outside-map-reported",
+            "a layer without a data-type entry is in the energy report",
+            loc=loc)
+  total = NF.const(0)
+  for lname, ents in sorted(want.items()):
+    got = r.get(lname)
+    if not isinstance(got, dict) or "energy" not in got:
+      rep.fail("R7", unit, "entry-missing:" + lname,
+               "no energy entry for the %s layer" % lname, loc=loc)
+      continue
+    for key, w in sorted(ents.items()):
+      gv = g(got["energy"][key])
+      total = total + gv
+      if w is None:
+        continue   # parameter entry of parameter-less classes: see below
+      rep.check(gv == w, "R7", unit, "entry:%s:%s" % (lname, key),
+                "%s.%s is %s, the documented function gives %s" %
+                (lname, key, show(gv, 260), show(w, 260)), loc=loc)
+  for lname in ("act", "merge", "pool"):
+    gv = g(r[lname]["energy"]["parameters"]) if lname in r else None
+    rep.check(gv is not None and not [a for a in gv.atoms()
+                                      if a[0] == "app" and a[1] == "WR"],
+              "R7", unit, "entry:%s:parameters" % lname,
+              "%s.parameters is %s" % (lname, show(gv, 200) if gv is not None
+                                       else None), loc=loc)
+  tc = r.get("total_cost")
+  if isinstance(tc, Tensor):
+    rep.check(g(tc) == total or g(tc) == mk("floor", (), [total]), "R7",
+              unit, "total!=sum-of-entries(interpreted)",
+              "total_cost is %s, the entries add up to %s" %
+              (show(g(tc), 200), show(total, 200)), loc=loc)
+
+
 def run(rep, repo, tier):
   rep.trusted.append("Keras compute_output_shape (output shapes are symbols)")
   rep.assumptions.append("the energy constants themselves and the rounding "
@@ -634,6 +818,8 @@ def run(rep, repo, tier):
   rule_keys(rep, repo)
   rule_totals(rep, repo)
   rule_placement(rep, repo)
+  rule_entries(rep, repo)
+  rep.require_instances("R7", 18)
   rep.require_instances("R6", 36)
   rep.require_instances("R1", 20)
   rep.require_instances("R2", 10)
